@@ -42,6 +42,7 @@ struct Op {
   int hslot = -1;    // heap slot of the executing thread; -1 = default-heap API
   uint64_t a = 0, b = 0, c = 0, d = 0;
   uint32_t flags = 0;                 // OPF_*
+  int uid = -1;                       // position in the generated plan; survives deletions by the minimiser (keys the scheduling decisions)
   std::vector<OpFault> faults;        // OS faults attached to this operation
 };
 enum { OPF_MAY_FAIL = 1,      // NULL is an acceptable answer even without an injected fault
